@@ -427,6 +427,28 @@ func c12Workload[T any](rep *Report, codec Codec[T], api string, exit string) {
 		cancel()
 		<-done
 		p.B.Svc.OpenGate(77)
+	case "late-while-another-in-flight":
+		// call 1 passes a closure and returns; call 2 (another closure) is in flight when the peer invokes the
+		// closure of call 1: it must not exist (whatever id call 2's closure got), and must not run anything
+		res = withWatchdog(func() (any, error) { return nil, ra.KeepClosure(ctx, 1, cb) })
+		var ranOther int64
+		done := make(chan struct{})
+		go func() {
+			defer close(done)
+			ra.KeepAndGate(context.Background(), 5, 79, func(ctx context.Context, i int, s string) (string, error) {
+				atomic.AddInt64(&ranOther, 1)
+				return "other", nil
+			})
+		}()
+		waitFor(func() bool { return p.B.Svc.Kept(5) != nil })
+		if kept := p.B.Svc.Kept(1); kept != nil {
+			r := withWatchdog(func() (any, error) { return kept(context.Background(), 1, "late") })
+			if !r.ok || r.err == nil || !strings.Contains(r.err.Error(), rpc.ErrClosureDoesNotExist.Error()) || atomic.LoadInt64(&ranOther) != 0 {
+				rep.addViolation("property", key+":late-hits-other", fmt.Sprintf("the closure of a call that has returned was invoked while another closure-carrying call was in flight: got (%v, %v); the OTHER call's function ran %d time(s)", r.val, r.err, atomic.LoadInt64(&ranOther)), desc)
+			}
+		}
+		p.B.Svc.OpenGate(79)
+		<-done
 	case "link-already-ended":
 		// the call never becomes pending: the link has ended before it is made (it fails at once); the closure
 		// it registered on the way must be released all the same
@@ -489,7 +511,7 @@ func runC12(rep *Report, tier string, seed int64) {
 	}
 	for r := 0; r < reps; r++ {
 		for _, api := range apis() {
-			for _, exit := range []string{"success", "two-closures", "marshal-failure", "cancel", "link-death", "link-already-ended"} {
+			for _, exit := range []string{"success", "two-closures", "marshal-failure", "cancel", "link-death", "link-already-ended", "late-while-another-in-flight"} {
 				switch r % 3 {
 				case 0:
 					c12Workload(rep, jsonRaw(), api, exit)
